@@ -167,6 +167,9 @@ pub fn extra_programs() -> Vec<Program> {
         "A A A A A Kd R[A A A Kd]",
         "C M Kg R[Z Z Z M Kc] R[Z] R[]",
         "C Cd Kd",
+        "C C0 Ks Kd",
+        "C0 C M Ks R[Z Ks Kc]",
+        "C0 Kb",
         "C Cd Cd Kb M Kd R[Z M Kc]",
     ]
     .iter()
